@@ -327,4 +327,3 @@ func diffParser() *Result {
 	r.DistinctNontrivial = r.Cases
 	return r
 }
-
